@@ -1013,6 +1013,9 @@ func (x *FnExec) frameObligation(name string, reach Term, before, after map[stri
 		case *CCall:
 			if m.Fn == "ghost" {
 				if id, ok := m.Args[0].(*CIdent); ok {
+					if id.Name == "none" {
+						continue
+					}
 					idx := "0"
 					if len(m.Args) > 1 {
 						idx = env.scalar(env.Eval(m.Args[1]), "ghost index")
@@ -1092,9 +1095,8 @@ func (x *FnExec) frameObligation(name string, reach Term, before, after map[stri
 		}
 		goals = append(goals, Implies(cond, Eq(Sel(a, sk), Sel(b, sk))))
 	}
-	if len(goals) == 0 {
-		return
-	}
+	// emitted even when nothing was written (goal true): a frame obligation must exist in the
+	// baseline for a later change that breaks it to be reported against
 	src := "modifies nothing"
 	if len(mods) > 0 {
 		var ss []string
